@@ -406,6 +406,10 @@ func (lt *LitTable) Decls(body string) string {
 				fmt.Fprintf(&b, "(assert (= (at_Y %s %d) %d))\n", n, i, s[i])
 			}
 		}
+		if len(s) == 1 {
+			// a one-byte literal is the same sequence as single(byte): `"\x1b"` and `bytes(27)` denote one term
+			fmt.Fprintf(&b, "(assert (= %s (single_Y %d)))\n", n, s[0])
+		}
 	}
 	// literals of equal length that differ: distinctness follows from at-facts; literals longer
 	// than 512 bytes get an explicit distinct constraint
